@@ -156,8 +156,12 @@ func (t *HHWheelTimer) RunAfter(timeUnits int, r Runnable) int {
 	t.refer[id] = node
 	t.guard.Unlock()
 
-	// send without holding the mutex: the worker needs it to expire timers
-	t.pendingAdd <- node
+	// send without holding the mutex: the worker needs it to expire timers;
+	// after Shutdown nobody receives any more
+	select {
+	case t.pendingAdd <- node:
+	case <-t.done:
+	}
 	return id
 }
 
@@ -177,8 +181,12 @@ func (t *HHWheelTimer) RunEvery(interval int, r Runnable) int {
 	t.refer[id] = node
 	t.guard.Unlock()
 
-	// send without holding the mutex: the worker needs it to expire timers
-	t.pendingAdd <- node
+	// send without holding the mutex: the worker needs it to expire timers;
+	// after Shutdown nobody receives any more
+	select {
+	case t.pendingAdd <- node:
+	case <-t.done:
+	}
 	return id
 }
 
@@ -191,8 +199,12 @@ func (t *HHWheelTimer) Cancel(id int) bool {
 	t.guard.Unlock()
 
 	if found {
-		// send without holding the mutex: the worker needs it to expire timers
-		t.pendingDel <- node
+		// send without holding the mutex: the worker needs it to expire timers;
+		// after Shutdown nobody receives any more
+		select {
+		case t.pendingDel <- node:
+		case <-t.done:
+		}
 	}
 	return found
 }
@@ -370,7 +382,10 @@ func (t *HHWheelTimer) expireNear() {
 					t.addNode(node)
 				}
 			} else {
-				t.C <- node.r // trigger
+				select {
+				case t.C <- node.r: // trigger
+				case <-t.done: // Shutdown while waiting for the consumer
+				}
 			}
 		}
 		node = next
